@@ -306,7 +306,12 @@ impl Display for Expr {
         }
 
         if let Some(ref val) = self.val {
-            fmt.write_str(val)?;
+            // a text literal is spelled in quotes, or 'Size' would be the key of the column `size`
+            if val.parse::<f64>().is_ok() {
+                fmt.write_str(val)?;
+            } else {
+                write!(fmt, "'{}'", val)?;
+            }
         }
 
         if self.function.is_none() {
